@@ -68,7 +68,7 @@ VARIANTS = {
     'blank-line': [1],
     'comment': ['; note', ';nop "q', '   ; x = 1, y'],
     'label-own-line': [1],
-    'join': [1],
+    'join': [' ', '\t', ' \t', '   '],         # the whitespace between two instructions written on one line
 }
 
 
@@ -148,7 +148,7 @@ def render(prog, choice):
             cur = indent + text
         if choice.get(('join', i)) and lines and not choice.get(('comment', i - 1)) and not choice.get(('blank-line', i)):
             # glue to the previous instruction line (which carries no comment when joining is chosen)
-            lines[-1] = lines[-1] + ' ' + text
+            lines[-1] = lines[-1] + choice[('join', i)] + text
             if comment:
                 lines[-1] += ' ' + comment
             continue
